@@ -550,8 +550,8 @@ func genC18(ctx *Ctx) []Case {
 	hdr := []byte("PACK\x00\x00\x00\x01")
 	add("witness", 0, hdr, c18Ones(8), false, 0)
 	add("witness", 0, hdr, nil, false, 1)
-	streams := 4
-	nrand := 6
+	streams := 10
+	nrand := 8
 	if ctx.Thorough() {
 		streams = 40
 		nrand = 12
@@ -565,6 +565,14 @@ func genC18(ctx *Ctx) []Case {
 				ctx.Count("stream_truncated")
 			} else {
 				ctx.Count("stream_valid")
+			}
+			if si == 0 {
+				// every cut point of one stream per kind: the class of the terminating error
+				// (clean EOF / unexpected EOF / other) must not depend on the chunking either
+				for cut := 0; cut < len(s) && cut < 400; cut++ {
+					add("cut-whole", kind, s[:cut], nil, cut%2 == 0, 0)
+					add("cut-chunked", kind, s[:cut], []int{1 + ctx.Pick(5), ctx.Pick(3), 1 + ctx.Pick(7)}, cut%3 == 0, 0)
+				}
 			}
 			add("whole", kind, s, nil, false, 0)
 			add("whole+eof", kind, s, nil, true, 0)
